@@ -101,7 +101,7 @@ class FakeLogging:
 
 # ------------------------------------------------------------ builtins
 def sym_len(x):
-    if isinstance(x, SymBytes):
+    if isinstance(x, SymBytes) or hasattr(type(x), 'sym_len'):
         return x.sym_len()
     if has_token(x):
         return len(lift(x))
